@@ -30,10 +30,10 @@ func c09Advances(tm string, max int) (r time.Duration, adv map[byte]time.Duratio
 		r = 1800 * time.Second
 	}
 	adv = map[byte]time.Duration{
-		'a': r * 4 / 10,                    // 0.4 r
-		'b': r - 100*time.Millisecond,      // just under one period
-		'c': r + 100*time.Millisecond,      // just over one period
-		'd': r*5/2 + 50*time.Millisecond,   // 2.5 r
+		'a': r * 4 / 10,                                   // 0.4 r
+		'b': r - 100*time.Millisecond,                     // just under one period
+		'c': r + 100*time.Millisecond,                     // just over one period
+		'd': r*5/2 + 50*time.Millisecond,                  // 2.5 r
 		'e': time.Duration(max+2)*r + 70*time.Millisecond, // long enough to refill completely
 	}
 	return
@@ -437,7 +437,7 @@ func init() {
 			return cs
 		},
 		func(e *vh.Env, c c09Sys, o *vh.Out) {
-			o.Need("sys_requests", "sys_429", "sys_forwarded")
+			o.Need("sys_requests", "sys_429", "sys_forwarded", "drained_clients_rechecked_after_reconfiguration")
 			bes := newBackends(2)
 			defer closeBackends(bes)
 			cfg := baseConfig(c.Strategy, bes)
@@ -458,14 +458,16 @@ func init() {
 			for _, k := range keys {
 				kt := strings.TrimSpace(k)
 				if !strings.Contains(k, ",") {
-					clients = append(clients, cl{[][2]string{{"X-Forwarded-For", k}}, kt}, cl{[][2]string{{"X-Forwarded-For", k + ", 9.9.9.9"}}, kt}, cl{[][2]string{{"X-Real-IP", k}}, kt})
+					clients = append(clients, cl{[][2]string{{"X-Forwarded-For", k}}, kt}, cl{[][2]string{{"X-Forwarded-For", k + ", 9.9.9.9"}}, kt}, cl{[][2]string{{"X-Real-IP", k}}, kt},
+						// proxy chains joined without a blank, with different tails: still the same client
+						cl{[][2]string{{"X-Forwarded-For", k + ",9.9.9.9"}}, kt}, cl{[][2]string{{"X-Forwarded-For", k + ",8.8.8.8,7.7.7.7"}}, kt})
 				}
 			}
 			clients = append(clients, cl{nil, "127.0.0.1"})
 			model := map[string]int{} // admitted so far per attributed client; no time passes below, so the allowance is max
 			total429 := 0
 			t0 := time.Now()
-			for i := 0; i < 60; i++ {
+			for i := 0; i < 160; i++ {
 				c1 := clients[r.Intn(len(clients))]
 				before := bes[0].Count() + bes[1].Count()
 				rs := vh.Do(sys.Addr, vh.RawReq{Method: "GET", Target: fmt.Sprintf("/rl/%d", i), Headers: c1.hdr, Instant: true})
@@ -506,6 +508,29 @@ func init() {
 			vh.Settle()
 			if got := num(sys.metricsJSON(), "rate_limited_requests"); got != int64(total429) {
 				o.Viol("C09|sys|metric", fmt.Sprintf("%s: %d requests were answered 429 but rate_limited_requests is %d", c.Strategy, total429, got), nil)
+			}
+			// run-time reconfiguration (strategy switch, backend added and removed) refills nobody's bucket
+			other := allStrategies[(c.Idx+1)%5]
+			if other == c.Strategy {
+				other = allStrategies[(c.Idx+2)%5]
+			}
+			adm := sys.admin()
+			adminDo(adm, "POST", "/v1/strategy", "127.0.0.1:1", nil, fmt.Sprintf(`{"strategy":%q}`, other))
+			adminDo(adm, "POST", "/v1/backends/add", "127.0.0.1:1", nil, fmt.Sprintf(`{"name":"extra","address":%q,"weight":1}`, bes[0].URL))
+			adminDo(adm, "POST", "/v1/backends/remove", "127.0.0.1:1", nil, `{"name":"extra"}`)
+			checked := 0
+			for _, c1 := range clients {
+				if model[c1.attr] < c.Max || checked >= 6 {
+					continue
+				}
+				checked++
+				rs := vh.Do(sys.Addr, vh.RawReq{Method: "GET", Target: "/after-reconf", Headers: c1.hdr, Instant: true})
+				if rs.Status != 429 {
+					o.Viol("C09|sys|allowance-reset-by-reconfiguration", fmt.Sprintf("%s max_tokens=%d client %q: drained, then strategy switched to %s and a backend added and removed at the same instant: the next request got %d instead of 429", c.Strategy, c.Max, c1.attr, other, rs.Status), nil)
+					return
+				}
+				total429++
+				o.Obs("drained_clients_rechecked_after_reconfiguration", 1)
 			}
 			// after (max+2) refill periods everybody has a full burst again
 			time.Sleep(time.Duration(c.Max+2)*10*time.Second + time.Second)
